@@ -28,6 +28,16 @@ CLAIMED = {
             '6/C16'),
 
 
+    'C02': ('TLA+ model of Container slice construction, the Analysis.run loop and the batch-size rule (Analysis.tla, BatchRule.tla) model-checked by TLC for every set size / batch size / 1-3 runs; '
+            'generated behaviours executed through the public Container/Attack/Reverse API with recorded feeds compared to the specification',
+            'TLC proves on the bounded domain that the batches tile the trace set in order (tail batch, one-trace tail, sets smaller than a batch), and refutes slice variants that drop or repeat a trace; '
+            'each behaviour is run on the 12 analysis classes with frames and preprocess chains: ids, arrays handed to update, compute points, bit-identical one-shot results, scores = discriminant(results), '
+            'accumulation over repeated runs; Container.batch_size equals the specified rule at every table threshold and MB setting.',
+            'Exact regime (integer samples); expected arrays evaluated with the public preprocess/model/selection callables; frame=int outside the quantifier.', '6/C02'),
+    'C08': ('TLA+ model of the convergence bookkeeping inside the run loop (Analysis.tla) model-checked by TLC for every (set sizes, batch size, step, runs) in the bound; generated behaviours executed on real attacks',
+            'TLC checks strictly increasing points, in-loop spacing >= step, remainder only as last of a run, last point = processed, columns taken at fresh computes; each behaviour is executed on CPA/DPA/ANOVA/NICV/SNR/MIA '
+            'attacks: positions equal the specification, every column bit-identical to fresh prefix scores, last column = final scores, results/scores identical without convergence.',
+            'Exact regime; spacing clause read per run as in DESIGN 6/C08.', '6/C08'),
     'C03': ('TLA+ definitions (Stats.tla) enumerated exhaustively by TLC over small observation domains (StatsEnum.tla) with K=P lemmas; every '
             'enumerated state and driver-proposed multi-dimensional datasets (StatsCases.tla) replayed on the real CPA/CPA-alternative/DPA distinguishers',
             'TLC enumerates every multiset of 2..4(5) observations over a 4x4 grid and checks in each state that two formulations of Pearson agree, |r|<=1, the '
